@@ -2,6 +2,7 @@ import Thanos.Common.Parse
 import Thanos.Model.Rules
 import Thanos.Model.Memcached
 import Thanos.Model.AlertQueue
+import Thanos.Model.Reloader
 /-
   Line-protocol driver of the `misc` family (C45 C46 C47 C48 C49).
   One request per line, one answer per line; every line is self-contained.
@@ -42,6 +43,18 @@ import Thanos.Model.AlertQueue
       alerts = id.keep{,id.keep} | -       keep = 1|0: does relabelling keep the alert
       events = per pop body, in the order they ran: b<id>{,<id>} | b- (empty batch) | blocked | wblocked
                (the W popper was still waiting at the end), joined by ";"  (- for none)
+
+  C47
+    rl.expand <tol> <env> <hextext>                     -> ok <hex> | unset <hexname>      (expandEnv)
+    rl.run <conf> <step>{|<step>}                       -> <answer>{|<answer>}             (a history of apply calls)
+      conf   = hasCfg.hasOut.tolerate.watchZero.nDirs.hasWatched          (0|1 each, nDirs a number)
+      step   = cfg~dirs~watched~env~script
+      cfg    = x (missing) | file          dirs = dir{/dir} | -      dir = file{,file} | e (empty dir)
+      watched = file{,file} | -            file = hexname:hexraw:plain
+      plain  = "=" (not gzipped: the text is raw) | ! (broken gzip stream) | hextext (what gunzip gives)
+      env    = hexname=hexvalue{,…} | -    script = a word of 1/0: answers of the reload endpoint, in order
+      answer = res;outs      res = ok<requests> | err:missing | err:gzip | err:env:<hexname>
+      outs   = path=hexcontent{,…} sorted by path | -     path = out | <dir index>/<hexname>
 -/
 open Thanos Thanos.Parse
 
@@ -244,7 +257,101 @@ def runItems (c : Cfg) (items : List Item) : String :=
 
 end AQ
 
+/-! ### C47 -/
+
+namespace RL
+open Thanos.Reloader
+
+def parseFile (s : String) : Option File :=
+  match splitChar ':' s with
+  | [n, raw, pl] => do
+    let _ ← hexDecode? raw
+    let plain ← if pl = "=" then (hexString? raw).map some
+                else if pl = "!" then some none
+                else (hexString? pl).map some
+    pure { name := n, raw := raw, plain := plain }
+  | _ => none
+
+def parseFiles (s : String) : Option (List File) := (listOf ',' s).mapM parseFile
+
+def parseDir (s : String) : Option (List File) := if s = "e" then some [] else parseFiles s
+
+def parseEnv (s : String) : Option (List (String × String)) :=
+  (listOf ',' s).mapM fun t =>
+    match splitChar '=' t with
+    | [n, v] => do pure ((← hexString? n), (← hexString? v))
+    | _ => none
+
+def parseScript (s : String) : Option (List Bool) :=
+  s.toList.mapM fun c => if c = '1' then some true else if c = '0' then some false else none
+
+structure Setup where
+  conf : Conf
+  nDirs : Nat
+  hasWatched : Bool
+
+def parseConf (s : String) : Option Setup :=
+  match splitChar '.' s with
+  | [a, b, c, d, n, w] => do
+    let bit (x : String) : Option Bool := if x = "1" then some true else if x = "0" then some false else none
+    pure { conf := { hasCfg := ← bit a, hasOut := ← bit b, tolerate := ← bit c, watchZero := ← bit d },
+           nDirs := ← parseNat? n, hasWatched := ← bit w }
+  | _ => none
+
+def parseStep (su : Setup) (s : String) : Option Snap :=
+  match splitChar '~' s with
+  | [cfg, dirs, watched, env, script] => do
+    let cfg ← if cfg = "x" then some none else (parseFile cfg).map some
+    let dirs ← if su.nDirs = 0 then (if dirs = "-" then some [] else none) else (splitChar '/' dirs).mapM parseDir
+    if dirs.length != su.nDirs then none
+    let watched ← if su.hasWatched then (parseFiles watched).map some else (if watched = "-" then some none else none)
+    let env ← parseEnv env
+    let script ← parseScript script
+    pure { cfg := cfg, dirs := dirs, watched := watched, env := env, script := script }
+  | _ => none
+
+def showRes : Res → String
+  | .ok n => s!"ok{n}"
+  | .err .missing => "err:missing"
+  | .err .gzip => "err:gzip"
+  | .err (.env n) => "err:env:" ++ hexS n
+
+def showKey : Key → String
+  | .cfg => "out"
+  | .dir i n => s!"{i}/{n}"
+
+def showOut (o : OutFS) : String :=
+  let es := o.map fun e => (showKey e.1, hexS e.2)
+  joinWith "," ((es.mergeSort (fun a b => !(b.1 < a.1))).map fun e => e.1 ++ "=" ++ e.2)
+
+/-- does an interrupted pass over a CfgDir remember the outputs it wrote (tied by the regenerated
+    fact `reloaderTracksWrittenOutputs`, obligation `C47_track_fact`) -/
+def rlTrack : Bool := true
+
+def runSteps (c : Conf) : St → List Snap → List String
+  | _, [] => []
+  | st, s :: rest =>
+    let (st', r) := Reloader.apply c rlTrack st s
+    (showRes r ++ ";" ++ showOut st'.out) :: runSteps c st' rest
+
+end RL
+
 def handle : List String → String
+  | ["rl.expand", tol, env, text] =>
+    match RL.parseEnv env, hexString? text with
+    | some env, some t =>
+      match Reloader.expandEnv (Reloader.lookupEnv env) (tol == "1") t with
+      | .ok v => "ok " ++ hexS v
+      | .error (.unset n) => "unset " ++ hexS n
+      | .error .fuel => "fuel"
+    | _, _ => "bad-op"
+  | ["rl.run", conf, steps] =>
+    match RL.parseConf conf with
+    | some su =>
+      match (splitChar '|' steps).mapM (RL.parseStep su) with
+      | some snaps => "|".intercalate (RL.runSteps su.conf {} snaps)
+      | none => "bad-op"
+    | none => "bad-op"
   | ["aq.run", cap, mb, items] =>
     match parseNat? cap, parseNat? mb, (listOf ';' items).mapM AQ.parseItem with
     | some cap, some mb, some items => AQ.runItems ⟨cap, mb⟩ items
